@@ -230,7 +230,7 @@ def replay_cex(prop, meta, cfg, fn_arg_types, rty, model, kind, tag=''):
     json.dump(case, open(os.path.join(outdir, 'case.json'), 'w'), indent=1, default=str)
     sh = os.path.join(outdir, 'run.sh')
     open(sh, 'w').write('#!/bin/sh\n# replays a counterexample against the real headers; exit 1 if the violation reproduces\n'
-                        'exec %s -m avelverif.replay "%s"\n' % ('python3-vt', outdir))
+                        'cd "%s" && exec %s -m avelverif.replay "%s"\n' % (ROOT, 'python3-vt', outdir))
     os.chmod(sh, 0o755)
     return {'confirmed': confirmed, 'detail': details, 'path': sh, 'inputs': case['inputs'], 'rm': rm}
 
